@@ -31,6 +31,9 @@ MEMBERS = {
     "OneOf": ["OneOf", BYTE, [1]],
     "Nested": ["Struct", [["a", BYTE], ["b", ["Prefixed", BYTE, ["ConstB", b"\x01"], False]]]],
     "Error": ["Error"],
+    # building: writes four bytes before it can fail (b not 1); and a shorter alternative accepting the same value
+    "LongFail": ["Struct", [["a", BYTE], [None, ["Padding", 3]], ["b", ["OneOf", BYTE, [1]]]]],
+    "OnlyA": ["Struct", [["a", BYTE]]],
     # fails after consuming a byte, and not with a ConstructError: the expression divides by the byte read (ZeroDivisionError on 00)
     "Div": ["Struct", [["a", BYTE], ["c", ["Computed", ["bin", "//", ["k", 16], ["this", "a"]]]]]],
 }
@@ -50,7 +53,7 @@ def units(tier):
         us.append({"kind": "Optional", "members": [m]})
         if m != "Error":
             us.append({"kind": "GreedyRange", "members": [m]})
-        if m == "Div":
+        if m in ("Div", "LongFail", "OnlyA"):
             continue        # "any failure" is the contract of the alternatives and of repetition; Peek, Pointer and Union pass a foreign exception on
         us.append({"kind": "Peek", "members": [m]})
         for off in (0, 1, 2, -1, -2, 9):
@@ -66,7 +69,7 @@ def units(tier):
     for x in BIT_COMBS:
         for k in range(0, 8):
             us.append({"kind": "InBitwise", "comb": x, "head": k, "members": []})
-    for a, b in itertools.product([n for n in names if n not in ("Error", "Div")], repeat=2):
+    for a, b in itertools.product([n for n in names if n not in ("Error", "Div", "LongFail", "OnlyA")], repeat=2):
         for pf in (None, 0, 1, "m1", "expr"):
             us.append({"kind": "Union", "members": [a, b], "parsefrom": pf})
             for anon in (0, 1):
@@ -205,6 +208,23 @@ def mk_comb(unit, mnames):
     raise ValueError(k)
 
 
+_COMPILED = {}
+
+
+def _compiled(comb):
+    k = id(comb)
+    if k not in _COMPILED:
+        try:
+            with watchdog(10):
+                _COMPILED[k] = (comb, comb.compile())
+        except (Exception, Hang):
+            _COMPILED[k] = (comb, None)
+        if len(_COMPILED) > 64:
+            for kk in list(_COMPILED)[:32]:
+                del _COMPILED[kk]
+    return _COMPILED[k][1]
+
+
 def check_parse(unit, mnames, comb, mds, data, pos, r=None):
     import construct as C
     kind = unit["kind"]
@@ -248,6 +268,13 @@ def check_parse(unit, mnames, comb, mds, data, pos, r=None):
         return bad("value-differs-from-solo", "returned %r, solo runs give %r" % (got[1], want[1]))
     if got[2] != want[2]:
         return bad("position-differs", "stream left at %d, contract says %d (value %r)" % (got[2], want[2], got[1]))
+    if kind == "Union" and unit["parsefrom"] not in ("expr", "lambda"):
+        # the generated code of compile() is bound by the same contract wherever the interpreter accepts (constant selectors compile)
+        dc = _compiled(comb)
+        if dc is not None:
+            gc = run_comb(dc, data, pos)
+            if gc[0] != "ok" or not T.eqv(gc[1], want[1]) or gc[2] != want[2]:
+                return bad("compiled-differs", "generated code gives %r ending at %r; interpreter and contract: %r ending at %d" % (gc[1], gc[2], want[1], want[2]))
     return "ok", []
 
 
@@ -637,7 +664,7 @@ def run_unit(unit, tier):
                         if sr[0] == "ok":
                             built_values.setdefault(repr(sr[1]), sr[1])
         if kind in ("Select", "Optional", "Peek", "Pointer"):
-            vals = list(built_values.values()) + [None, 1, b"\x01\x02", "ab", {"a": 1, "b": b"\x01"}, 300, "zz\x00"]
+            vals = list(built_values.values()) + [None, 1, b"\x01\x02", "ab", {"a": 1, "b": b"\x01"}, 300, "zz\x00", {"a": 5, "b": 9}, {"a": 5, "b": b"\x02"}]
             seen = set()
             for v in vals:
                 if repr(v) in seen:
